@@ -125,7 +125,7 @@ def lt_lit(t):
 def run(tier, seed, replay=None):
     assert_repo_import()
     chk = Check("C18", tier, seed)
-    model_ok = chk.proof_stage(["Report/Render.vo", "Agg/CheckFlow.vo", "Report/RenderProofs.vo"])
+    model_ok = chk.proof_stage(["Report/Render.vo", "Agg/CheckFlow.vo", "Report/RenderProofs.vo", "Scope/TieProofs.vo"])
     rng = chk.rng
     cases = []
     for i in range(700 if tier == "quick" else 30000):
